@@ -238,8 +238,8 @@ def odd_show_cases(rng, n):
 
 def all_cases(seed, tier):
     rng = core.mkrng(seed, 'C13')
-    ntab = 3000 if tier == 'quick' else 30000
-    nmal = 3000 if tier == 'quick' else 30000
+    ntab = 3000 if tier == 'quick' else 200000
+    nmal = 3000 if tier == 'quick' else 200000
     toks = token_cases()
     odd = odd_token_cases(tier)
     tabs = table_cases(rng, ntab)
